@@ -109,7 +109,7 @@ fn cases(args: &Args, rng: &mut Rng) -> Vec<C12Case> {
         }
     }
     // several channels, concurrent sender tasks, faults on setup chunks
-    for (i, f) in ["-", "B.COOKIEACK.1.drop", "A.INIT.1.late4+B.INITACK.1.dup", "A.COOKIEECHO.1.dup+A.DATA.2.delay3", "A.DATA.1.drop+A.DATA.4.drop+B.SACK.1.drop"].iter().enumerate() {
+    for (i, f) in ["-", "B.COOKIEACK.1.drop", "A.INIT.1.late4+B.INITACK.1.dup", "A.COOKIEECHO.1.dup+A.DATA.2.delay3", "A.DATA.1.drop+A.DATA.4.drop+B.SACK.1.drop", "A.INIT.1.dup", "A.INIT.1.dup+A.COOKIEECHO.1.late3"].iter().enumerate() {
         let a = vec![spec(1, Kind::RelOrd, true, 0), spec(2, Kind::RelUnord, false, 0), spec(4, Kind::RelOrd, false, 0), spec(3, Kind::RelUnord, true, 0)];
         let b = vec![spec(1, Kind::RelOrd, true, 0), spec(3, Kind::RelUnord, true, 0)];
         let mut plan = vec![];
